@@ -93,7 +93,7 @@ func backing(sc *Scn, r *Result, i int, h Hop) *Delivered {
 		}
 		// TCP SYN default mode: a SYN-ACK/RST carries no per-probe identifier; it may be credited to the probe
 		// most recently sent when it is processed (TTL >= the probe that caused it), never to an earlier one
-		if vi.Kind == "tcp" && isDirectTCP(d.Form) && d.TTL <= h.TTL {
+		if ((vi.Kind == "tcp" && isDirectTCP(d.Form)) || (vi.Kind == "tcpparis" && d.Form == "rst")) && d.TTL <= h.TTL { // (a bare RST has no acknowledgement number in any mode)
 			last := lastSentBefore(r.Net, o.SinkID, d.AtNs+lag)
 			if last != h.TTL && lastSentBefore(r.Net, o.SinkID, d.AtNs) != h.TTL {
 				continue
@@ -274,6 +274,11 @@ func RTT(sc *Scn, r *Result, i int) []Issue {
 	}
 	st := sendTimes(r.Net, o.SinkID)
 	var out []Issue
+	// the serial engine does not read while it waits out the send delay: processing may lag arrival by up to one send delay
+	tol := int64(rttTolNs)
+	if !Info(sc.Variant).Parallel {
+		tol += int64(sc.DelayMs) * 1e6
+	}
 	for _, h := range Hops(o.Run) {
 		if !h.Addr.IsValid() {
 			if h.RTTus != 0 {
@@ -285,12 +290,16 @@ func RTT(sc *Scn, r *Result, i int) []Issue {
 			out = append(out, Issue{"negative", fmt.Sprintf("hop %d rtt %dus", h.TTL, h.RTTus)})
 			continue
 		}
-		// candidates: genuine deliveries for this TTL from this address; the first one that the engine could accept
+		// a hop credited under the TCP no-identifier caveat is judged by backing() alone
+		if b := backing(sc, r, i, h); b != nil && b.TTL != h.TTL {
+			continue
+		}
+		// candidates: genuine deliveries for this TTL from this address that arrived during the run; the first one counts
 		var first *Delivered
 		ds := r.Script.Sent[o.SinkID]
 		for k := range ds {
 			d := &ds[k]
-			if d.TTL == h.TTL && d.From == h.Addr && d.AtNs >= st[h.TTL] {
+			if d.TTL == h.TTL && d.From == h.Addr && d.AtNs >= st[h.TTL] && d.AtNs <= o.EndNs {
 				if first == nil || d.AtNs < first.AtNs {
 					first = d
 				}
@@ -302,13 +311,13 @@ func RTT(sc *Scn, r *Result, i int) []Issue {
 		want := first.AtNs - st[h.TTL]
 		got := h.RTTus * 1000
 		// a destination reply may legitimately replace an earlier non-destination one
-		if got < want-1000 || got > want+rttTolNs {
+		if got < want-1000 || got > want+tol {
 			ok := false
 			for k := range ds {
 				d := &ds[k]
 				if d.TTL == h.TTL && d.From == h.Addr && h.Dest && ProvesArrival(Info(sc.Variant).Kind, d.Form, d.From == sc.Target()) {
 					w := d.AtNs - st[h.TTL]
-					if got >= w-1000 && got <= w+rttTolNs {
+					if got >= w-1000 && got <= w+tol {
 						ok = true
 					}
 				}
@@ -318,7 +327,7 @@ func RTT(sc *Scn, r *Result, i int) []Issue {
 				for t2, s2 := range st {
 					if t2 != h.TTL {
 						w := first.AtNs - s2
-						if got >= w-1000 && got <= w+rttTolNs {
+						if got >= w-1000 && got <= w+tol {
 							key = "measured-against-other-probe"
 						}
 					}
